@@ -380,7 +380,36 @@ func (p *Prog) classifyCall(x *TX, s *Summary, in ssa.Instruction, c *ssa.CallCo
 	} else if callee.Object() != nil && callee.Object().Pkg() != nil {
 		pk = callee.Object().Pkg().Path()
 	}
-	add(Effect{Kind: "EXTERNAL", Region: pk, Val: mk("func", name), In: in})
+	add(Effect{Kind: "EXTERNAL", Region: pk, Val: mk("func", name), In: in, Key: capabilityArg(c)})
+}
+
+// capabilityArg: an external callee can only touch chain state if it is handed a
+// capability: a context, a store, the keeper, a codec-independent service or the event
+// manager. Returns a marker term when some argument (or the receiver) is one.
+func capabilityArg(c *ssa.CallCommon) *Term {
+	isCap := func(T types.Type) bool {
+		if isCtxType(T) || isKeeperType(T) || isKVStoreType(T) {
+			return true
+		}
+		return isNamed(T, pkgCoreStore, "KVStoreService") || isNamed(T, pkgSDK, "EventManagerI") || isNamed(T, pkgSDK, "EventManager")
+	}
+	vals := append([]ssa.Value(nil), c.Args...)
+	if c.IsInvoke() {
+		vals = append(vals, c.Value)
+	}
+	for _, a := range vals {
+		T := a.Type()
+		if mi, ok := a.(*ssa.MakeInterface); ok {
+			T = mi.X.Type()
+		}
+		if isCap(T) {
+			return mk("const", "capability:"+typeStr(T))
+		}
+		if ptr, ok := T.(*types.Pointer); ok && isCap(ptr.Elem()) {
+			return mk("const", "capability:"+typeStr(T))
+		}
+	}
+	return nil
 }
 
 func (p *Prog) noteExternalInvoke(x *TX, s *Summary, in ssa.Instruction, c *ssa.CallCommon, add func(Effect)) {
@@ -389,7 +418,7 @@ func (p *Prog) noteExternalInvoke(x *TX, s *Summary, in ssa.Instruction, c *ssa.
 	if n, ok := T.(*types.Named); ok && n.Obj().Pkg() != nil {
 		pk = n.Obj().Pkg().Path()
 	}
-	add(Effect{Kind: "EXTERNAL", Region: pk, Val: mk("func", "invoke "+typeStr(T)+"."+c.Method.Name()), In: in})
+	add(Effect{Kind: "EXTERNAL", Region: pk, Val: mk("func", "invoke "+typeStr(T)+"."+c.Method.Name()), In: in, Key: capabilityArg(c)})
 }
 
 func isModuleIface(T types.Type) bool {
